@@ -3,7 +3,7 @@
 From Coq Require Import ZArith List Bool Lia.
 From Mistletoe Require Import Base.Sx Base.PyStr Base.PyText Gen.GenConfig Model.Tree Model.CoreTokens Model.Inline
      Proofs.PlainProse Proofs.EmphSentence Proofs.RefSentence Proofs.LinkSentence Proofs.CodeSpan Proofs.StrikeSentence Proofs.EscSentence Proofs.ImageSentence
-     Proofs.LeafSpans Proofs.ListLaw Proofs.EmphSimple Proofs.EmphPhrases Proofs.NestedEmph Proofs.TitleLink Spec.Fragment.
+     Proofs.LeafSpans Proofs.ListLaw Proofs.EmphSimple Proofs.EmphPhrases Proofs.NestedEmph Proofs.TitleLink Proofs.AutoLinkSentence Spec.Fragment.
 Import ListNotations.
 Local Open Scope Z_scope.
 
@@ -14,6 +14,7 @@ Definition inl_ok (pre : str) (x : inl) (post : str) : bool :=
   | IImg w d => ilink_ok pre w d post
   | INest ch k h ps z => nest_ok ch k pre h ps z post
   | ILinkT w d tl => tlink_ok pre w d tl post && (match tl with [] => false | _ => true end)
+  | IAuto c0 sc r => auto_ok pre c0 sc r post
   end.
 
 Definition inl_tok (x : inl) : tok :=
@@ -23,29 +24,32 @@ Definition inl_tok (x : inl) : tok :=
   | IImg w d => image_of w d
   | INest ch k h ps z => nest_of ch k h ps z
   | ILinkT w d tl => tlink_of w d tl
+  | IAuto c0 sc r => auto_of (c0 :: sc ++ 58 :: r)
   end.
 
 Theorem one_in_sentence types fn pre x post :
   leaf_spans types = true -> emph_spans types = true -> inl_ok pre x post = true ->
   tokenize_inner types fn (pre ++ inl_text x ++ post) = raw_if pre ++ [inl_tok x] ++ raw_if post.
 Proof.
-  intros Hs Hem Ho. unfold leaf_spans in Hs. repeat rewrite andb_true_iff in Hs. destruct Hs as [[[Hr _] Hst] He].
-  destruct x as [w|c|w d|ch k h ps z|w d tl]; cbn [inl_ok inl_text inl_tok] in *.
+  intros Hs Hem Ho. unfold leaf_spans in Hs. repeat rewrite andb_true_iff in Hs. destruct Hs as [[[[Hr _] Hst] He] Hau].
+  destruct x as [w|c|w d|ch k h ps z|w d tl|u0 usc ur]; cbn [inl_ok inl_text inl_tok] in *.
   - rewrite <- !app_assoc. apply strike_in_sentence; assumption.
   - change (pre ++ [92; c] ++ post) with (pre ++ [92; c] ++ post). apply escape_in_sentence; assumption.
   - rewrite <- !app_assoc. apply image_in_sentence; assumption.
   - pose proof (nested_emphasis types fn ch k pre h ps z post Hem Ho) as T. unfold nest_text in T. rewrite <- !app_assoc in T. rewrite <- !app_assoc. exact T.
   - apply andb_true_iff in Ho as [Ho _]. rewrite <- !app_assoc. apply titled_link_in_sentence; assumption.
+  - pose proof (autolink_in_sentence types fn pre u0 usc ur post Hau Ho) as T. rewrite <- !app_assoc. exact T.
 Qed.
 
 Lemma inl_plain pre x post : inl_ok pre x post = true -> plain_text pre = true /\ plain_text post = true.
 Proof.
-  destruct x as [w|c|w d|ch k h ps z|w d tl]; cbn [inl_ok]; intros H.
+  destruct x as [w|c|w d|ch k h ps z|w d tl|u0 usc ur]; cbn [inl_ok]; intros H.
   - unfold strike_ok in H. repeat rewrite andb_true_iff in H. tauto.
   - unfold esc_ok in H. repeat rewrite andb_true_iff in H. tauto.
   - unfold ilink_ok in H. repeat rewrite andb_true_iff in H. tauto.
   - unfold nest_ok in H. repeat rewrite andb_true_iff in H. tauto.
   - unfold tlink_ok, ilink_ok in H. repeat rewrite andb_true_iff in H. tauto.
+  - unfold auto_ok in H. repeat rewrite andb_true_iff in H. tauto.
 Qed.
 
 (* neither a newline nor a pipe in the sentence *)
@@ -56,7 +60,7 @@ Proof.
   assert (Hr : mem c triggers_r = true) by (destruct Hc as [->| ->]; reflexivity).
   unfold mem. rewrite !existsb_app. fold (mem c pre). fold (mem c post). fold (mem c (inl_text x)).
   rewrite (plain_no c pre Ht Hpre), (plain_no c post Ht Hpost), orb_false_r. cbn [orb].
-  destruct x as [w|e|w d|ch k h ps z|w d tl]; cbn [inl_ok inl_text] in *.
+  destruct x as [w|e|w d|ch k h ps z|w d tl|u0 usc ur]; cbn [inl_ok inl_text] in *.
   - unfold strike_ok in Ho. repeat rewrite andb_true_iff in Ho. destruct Ho as [[[_ Hw] _] _].
     unfold mem. rewrite !existsb_app. fold (mem c w). rewrite (plain_no c w Ht Hw). destruct Hc as [->| ->]; reflexivity.
   - unfold esc_ok in Ho. repeat rewrite andb_true_iff in Ho. destruct Ho as [_ He]. unfold esc_char in He. apply andb_true_iff in He as [_ He]. apply negb_true_iff in He.
@@ -75,4 +79,7 @@ Proof.
     rewrite (plain_no c h Ht H5), (plain_no c z Ht H10), (body_no c Ht C1 C2 ps Hps). reflexivity.
   - unfold tlink_ok, ilink_ok in Ho. repeat rewrite andb_true_iff in Ho. destruct Ho as [[[[[[[[_ Hw] _] _] Hd] _] Htl] _] _].
     unfold mem. rewrite !existsb_app. fold (mem c w). fold (mem c d). fold (mem c tl). rewrite (plain_no c w Ht Hw), (dest_no c d Hr Hd), (plain_no c tl Ht Htl). destruct Hc as [->| ->]; reflexivity.
+  - unfold auto_ok in Ho. repeat rewrite andb_true_iff in Ho. destruct Ho as [[[[[[[_ _] H3] H4] H5] H6] _] H8]. apply Nat.leb_le in H5, H6.
+    pose proof (url_plain [] u0 usc ur H3 H4 (conj H5 H6) H8) as Hu.
+    unfold mem. rewrite !existsb_app. fold (mem c (u0 :: usc ++ 58 :: ur)). rewrite (plain_no c _ Ht Hu). destruct Hc as [->| ->]; reflexivity.
 Qed.
